@@ -432,7 +432,7 @@ def run(ctx):
     L = 4 if q else 6
     ns = 16
     ctx.units("prefix-sequences", unit_prefixes, [{"L": L, "shard": i, "nshards": ns} for i in range(ns)], procs=ns)
-    ctx.units("long-lookahead-runs", unit_long_runs, [{"lengths": list(range(0, 40)) + [48, 64, 100, 128, 129, 256, 257] + ([] if q else [500, 1023, 1024, 1025, 2000, 4096, 4097]),
+    ctx.units("long-lookahead-runs", unit_long_runs, [{"lengths": list(range(0, 40)) + [48, 64, 100, 128, 129, 256, 257, 1100] + ([] if q else [500, 1023, 1024, 1025, 2000, 4096, 4097]),
                                                        "shard": i, "nshards": 16} for i in range(16)], procs=16)
     ctx.units("dense-structural-sequences", unit_dense, [{"L": 6 if q else 7, "shard": i, "nshards": 16} for i in range(16)], procs=16)
     ctx.units("random-walks", unit_walks, [{"n": 600 if q else 6000, "seed": ctx.seed, "shard": i} for i in range(8 if q else 16)], procs=16)
